@@ -155,6 +155,31 @@ CLAIMED = {
             'for all flag combinations and rule compositions.',
             'Trusted: Lean kernel, standard axioms, translator g_obfdata.py, Spec.Scope as a reading of ES5 chapter 10, obfuscation '
             'model tied by S7/S4. Known findings KF-07a..d.', 'DESIGN.md §6 C07'),
+    'C01': ('Lean 4 proof that printing depends only on kinds, attributes and string values (erasing positions, token maps and '
+            'source paths does not change the text) and of the fixpoint reduction; kernel-decided facts about the space table '
+            'and the definitions; round-trip judge against the real parser and the Lean ES5.1 reference parser',
+            'print_ignores_positions(_any), print_fuel_irrelevant and pretty_fixpoint hold for ALL trees and indent strings over '
+            'the unparser model (tied by S3/S4 on every run); space_table_word_pairs / pretty_binop_spaces_unconditional / '
+            'dotaccessor_has_no_separator are decided over the regenerated tables; kf01_witness proves the negation on `1 .x`. '
+            'NOT proved: the lexical layer for all trees (adjacent token pairs re-lex) and the grammar layer (reference parse of '
+            'the printed tokens gives the tree back); both are judged: parse -> print -> parse (real and reference) -> print for '
+            'G1/G2 programs x 6 indent strings, with and without comments.',
+            'Trusted: Lean kernel, standard axioms, translators g_defs/g_rules, unparser model (tie S3/S4), composed parser model '
+            '(tie S2), Spec.Es5Parse as the conforming parser. Known findings KF-01, KF-13a/b and inherited parser deviations.',
+            'DESIGN.md §6 C01'),
+    'C13': ('Lean 4 simulation proofs that comment capture is transparent for every lexer method the parser calls and for the LR '
+            'run given transparent actions; lexer-level faithfulness; kernel decisions over the action table and the unparser '
+            'definitions; systematic comment-placement judge',
+            'token/auto_semi/backtracked_token/raise_syntax_error/p_error_comments_transparent hold for ALL lexer states; '
+            'lr_run_comments_transparent is the generic simulation; comments_transparent_partial gives '
+            'erase(parse text true) = parse text false for all texts UNDER the unproved action-level hypothesis ActionsTransparent '
+            '(its consequence is evaluated on the model for hundreds of texts per run as a tie obligation); comments_faithful_lexer, '
+            'set_comments_verbatim, no_comment_attached_twice [decide], actions_never_read_comments [decide], '
+            'line_comment_followed_by_newline [decide]. Judge: one comment of three kinds at every token gap of hand-written, G1 and '
+            'G2 programs: transparency, verbatim/ordered/unique attachment, printed comments re-read in traversal order by real '
+            'and reference parser.',
+            'Trusted: Lean kernel, standard axioms, translators, composed parser and unparser models (ties S2, S3). Known findings '
+            'KF-13a..e, KF-04a/d, KF-05b.', 'DESIGN.md §6 C13'),
     'C17': ('Lean 4 kernel decision (decide +kernel) of equality of the three regenerated LALR table sets and lexer rule lists, '
             'lifted to all inputs by a generic theorem about the LR driver model; cross-configuration differential tie',
             'The tables of the three configurations (generated modules / in-memory unoptimised / regenerated by optimize.reoptimize) '
